@@ -167,6 +167,21 @@ def gen_type_mask():
     return (1 << 31) | (1 << 27) | (1 << 26) | (1 << 25) | (1 << 24) | (1 << 21) | (1 << 19)
 
 
+CAPKEY = "73656375726974792e6361706162696c697479"   # security.capability
+
+
+def _has_cap(op):
+    return any(k == CAPKEY for e in op["src"]["tree"] if e.get("t") == "file" for k, _ in e.get("x", []))
+
+
+# F20: file capabilities do not survive a transfer (chown after setxattr, and the later content write, both drop them).
+# Signature: the only C01 complaint is about xattrs of a created entry and a source file carries security.capability.
+SyncSuite.matchers = {
+    "F20": lambda op, impl, model: _has_cap(op) and model.get("c01") is False and model.get("c01_why") == "xattrs of a created entry are missing"
+    and impl.get("send") == "ok" and impl.get("recv") == "ok",
+}
+
+
 class SyncC01(SyncSuite):
     focus = ("c01",)
 
